@@ -1,0 +1,66 @@
+//go:build verif
+// +build verif
+
+package waiter
+
+// Bounded harnesses for the verifier in /verif (build tag verif). They drive the real Queue
+// and the real intrusive list with up to three entries whose callbacks count their
+// invocations. Their contracts are in contracts_verif.go.
+
+type verifCounter struct{ n int }
+
+func (c *verifCounter) Callback(e *Entry) { c.n++ }
+
+// verifNotify registers the first k of three entries with the given masks and notifies once.
+func verifNotify(m0, m1, m2, mask EventMask, k int) (int, int, int) {
+	q := &Queue{}
+	c0, c1, c2 := &verifCounter{}, &verifCounter{}, &verifCounter{}
+	e0, e1, e2 := &Entry{Callback: c0}, &Entry{Callback: c1}, &Entry{Callback: c2}
+	if k >= 1 {
+		q.EventRegister(e0, m0)
+	}
+	if k >= 2 {
+		q.EventRegister(e1, m1)
+	}
+	if k >= 3 {
+		q.EventRegister(e2, m2)
+	}
+	q.Notify(mask)
+	return c0.n, c1.n, c2.n
+}
+
+// verifUnregister registers three entries, unregisters entry j, and notifies once.
+func verifUnregister(m0, m1, m2, mask EventMask, j int) (int, int, int) {
+	q := &Queue{}
+	c0, c1, c2 := &verifCounter{}, &verifCounter{}, &verifCounter{}
+	e0, e1, e2 := &Entry{Callback: c0}, &Entry{Callback: c1}, &Entry{Callback: c2}
+	q.EventRegister(e0, m0)
+	q.EventRegister(e1, m1)
+	q.EventRegister(e2, m2)
+	switch j {
+	case 0:
+		q.EventUnregister(e0)
+	case 1:
+		q.EventUnregister(e1)
+	case 2:
+		q.EventUnregister(e2)
+	}
+	q.Notify(mask)
+	return c0.n, c1.n, c2.n
+}
+
+// verifEvents: the readiness mask of a queue is the union of the registered masks.
+func verifEvents(m0, m1, m2 EventMask, k int) EventMask {
+	q := &Queue{}
+	e0, e1, e2 := &Entry{}, &Entry{}, &Entry{}
+	if k >= 1 {
+		q.EventRegister(e0, m0)
+	}
+	if k >= 2 {
+		q.EventRegister(e1, m1)
+	}
+	if k >= 3 {
+		q.EventRegister(e2, m2)
+	}
+	return q.Events()
+}
